@@ -74,10 +74,21 @@ def _leak(case, values, seed_extra):
     for j in range(nw):
         v = values[:, j]
         lk = _hw(v) if m == 'hw' else v.astype('float64') if m == 'value' else ((v >> int(m[-1])) & 1)
-        tr[:, 2 * j + 1] += lk
+        tr[:, 2 * j + 1] += lk * float(case.get('polarity', 1))
     if case.get('const_sample'):
         tr[:, -1] = float(case.get('offset', 0.0))        # a sample that never moves (padding / saturation): statistics are undefined there
     return tr.astype(case['tdtype'])
+
+
+def _ordered(case, parts):
+    """the class list as given (a range), descending, or in an arbitrary order: classes are values, their order is irrelevant"""
+    o = case.get('partition_order') or 'ascending'
+    if o == 'ascending':
+        return parts
+    p = [int(v) for v in parts]
+    if o == 'descending':
+        return p[::-1]
+    return [int(v) for v in gen.rng('c17-partition-order', int(case['noise_seed'])).permutation(p)]
 
 
 def _scared_model(case):
@@ -111,14 +122,15 @@ def _check(ctx, case):
         # the trace set also carries an unrelated metadata field literally called 'data' (all metadata is handed to the selection function)
         decoys['data'] = np.roll(pts, 3, axis=1) ^ 0xA5
     ths = dist.ram_ths(samples=traces, plaintext=pts, ciphertext=cts, key=np.tile(key, (N, 1)), **decoys)
-    cont = scared.Container(ths)
+    one = bool(case.get('one_sample_frame')) and attack in ('cpa', 'dpa')
+    cont = scared.Container(ths, frame=slice(1, 2)) if one else scared.Container(ths)      # a one-sample frame: only the first attacked word leaks there
     mod = getattr(aes_sf if cipher == 'aes' else des_sf, ns)
     if case.get('asked_before'):
         ns2, cls2 = case['asked_before'].split('.')
         must(case, 'compute_expected_key of %s' % case['asked_before'], getattr(getattr(aes_sf if cipher == 'aes' else des_sf, ns2), cls2)().compute_expected_key, key=key.copy())
     sf = getattr(mod, cls)(words=(np.array(words) if case.get('words_as_array') else list(words)) if attack not in ('tdpa',) else words[0])
     labels = ['cipher:%s' % cipher, 'attack:' + attack, 'target:%s.%s' % (cipher, name), 'model:' + case['model'], 'keysize:%d' % len(key), 'batch:%s' % (case['batch_size'] or 'default'), 'prec:' + case['precision'],
-              'offset:%g' % case.get('offset', 0.0), 'convergence_step:%s' % (case.get('convergence_step') or 'none')] + (['words_not_ascending'] if words != sorted(words) else []) + (['other_expected_key_asked_before'] if case.get('asked_before') else []) + (['constant_sample'] if case.get('const_sample') else []) + (['decoy_data_field'] if case.get('decoy_data') else []) + (['partial_partitions'] if case.get('partial_partitions') and attack in ('anova', 'nicv', 'snr') and case['model'] == 'hw' else [])
+              'offset:%g' % case.get('offset', 0.0), 'convergence_step:%s' % (case.get('convergence_step') or 'none')] + (['partitions_' + case['partition_order']] if case.get('partition_order', 'ascending') != 'ascending' and attack in ('anova', 'nicv', 'snr', 'mia') else []) + (['negative_polarity'] if case.get('polarity', 1) < 0 else []) + (['one_sample_frame'] if case.get('one_sample_frame') and attack in ('cpa', 'dpa') else []) + (['words_not_ascending'] if words != sorted(words) else []) + (['other_expected_key_asked_before'] if case.get('asked_before') else []) + (['constant_sample'] if case.get('const_sample') else []) + (['decoy_data_field'] if case.get('decoy_data') else []) + (['partial_partitions'] if case.get('partial_partitions') and attack in ('anova', 'nicv', 'snr') and case['model'] == 'hw' else [])
     nclass = {'hw': (9 if cipher == 'aes' else (7 if 'AddRoundKey' in name else 5)), 'value': (256 if cipher == 'aes' else 16)}.get(case['model'], 2)
     kw = dict(selection_function=sf, model=_scared_model(case), precision=case['precision'])
     if case.get('convergence_step') and attack != 'tstatic':
@@ -158,9 +170,9 @@ def _check(ctx, case):
         parts = range(nclass)
         if case.get('partial_partitions') and case['model'] == 'hw':
             parts = range(1, nclass - 1)      # the two rarest Hamming-weight classes are not declared: their traces must simply be ignored
-        a = getattr(scared, attack.upper() + 'Attack')(discriminant=getattr(scared, case['discriminant']), partitions=parts, **kw)
+        a = getattr(scared, attack.upper() + 'Attack')(discriminant=getattr(scared, case['discriminant']), partitions=_ordered(case, parts), **kw)
     elif attack == 'mia':
-        a = scared.MIAAttack(discriminant=getattr(scared, case['discriminant']), partitions=range(nclass), bin_edges=[float(case.get('offset', 0.0)) - 0.5 + i for i in range(nclass + 1)], **kw)
+        a = scared.MIAAttack(discriminant=getattr(scared, case['discriminant']), partitions=_ordered(case, range(nclass)), bin_edges=[float(case.get('offset', 0.0)) - 0.5 + i for i in range(nclass + 1)], **kw)
     else:
         w0 = words[0]
         # profiling set: another simulated acquisition with known intermediate values
@@ -190,6 +202,8 @@ def _check(ctx, case):
         full = np.asarray(getattr(mod, cls)().compute_expected_key(key=key)).reshape(-1)
         ek = full[words]
     for j, w in enumerate(words):
+        if one and j > 0:
+            continue
         col = scores[:, j]
         k = int(ek[j])
         t = col[k]
@@ -277,7 +291,11 @@ def cases(draw, cipher, attack):
             'offset': draw(st.sampled_from([0.0, 0.0, 3.0, 20.0])), 'convergence_step': draw(st.sampled_from([0, 0, 50, 100, 120])),
             'const_sample': draw(st.booleans()) and attack in ('cpa', 'anova', 'nicv', 'snr', 'dpa'),
             'decoy_data': draw(st.booleans()), 'partial_partitions': draw(st.booleans()),
+            'partition_order': draw(st.sampled_from(['ascending', 'ascending', 'descending', 'shuffled'])),
             'words_as_array': draw(st.booleans()),
+            # leakage of negative polarity (power drops when the weight rises): the absolute-value discriminant ranks it like the positive one
+            'polarity': -1 if (attack in ('cpa', 'dpa') and disc == 'maxabs' and draw(st.booleans())) else 1,
+            'one_sample_frame': attack in ('cpa', 'dpa') and draw(st.integers(0, 3)) == 0,
             # another ready-made selection function of the same cipher is asked for its expected key, with the same master key, beforehand
             'asked_before': draw(st.sampled_from([''] + (AES_TARGETS + AES_ARK if cipher == 'aes' else DES_TARGETS + DES_ARK)))}
     if attack == 'tdpa':
